@@ -155,6 +155,43 @@ def h_history(threshold: int, qs: List[bool], summaries: List[str], second_kind:
     return run(body_history, threshold, qs, summaries, second_kind, writes, kindf, text)
 
 
+# ------------------------------------------------------------------ index == naive on REAL parsed objects
+def body_real_index(bi, fi):
+    """The corpus of C11 `real_corpus` (real iCalendar bodies incl. DATE, floating, UTC and TZID values, real parser,
+    real parse_filter): check_from_indexes(get_indexes(keys)) == check on the same object.  Nothing is stubbed, so
+    this also covers what index VALUES look like after the real serialisation (parameters such as TZID are not part
+    of them)."""
+    from xv.core import picks, untraced
+    from xv.harness import C11
+    bi, fi = picks((bi, fi), (len(C11.RC_BODIES), len(C11.RC_FILTERS)))
+    with untraced():
+        import datetime as _real
+        import logging
+        if C11.RC_FILTERS[fi][1] == "param":
+            if ctx.kf("C10-param-filter-index"):
+                return (True, "known")
+        cf = C11._REAL_ICAL.CalendarFilter(_real.timezone.utc)
+        C11._REAL_CALDAV.parse_filter(C11._rc_filter(C11.RC_FILTERS[fi]), cf)
+        fobj = C11._REAL_ICAL.ICalendarFile([C11.RC_BODIES[bi]], "text/calendar")
+        logging.disable(logging.CRITICAL)
+        direct = bool(cf.check("x.ics", fobj))
+        keys = []
+        for alt in cf.index_keys():
+            for k in alt:
+                if k not in keys:
+                    keys.append(k)
+        via_index = bool(cf.check_from_indexes("x.ics", fobj.get_indexes(keys)))
+        return (direct == via_index, "hit" if direct else "miss")
+
+
+def h_real_index(bi: int, fi: int) -> bool:
+    """
+    pre: 0 <= bi < 9 and 0 <= fi < 10
+    post: _
+    """
+    return run(body_real_index, bi, fi)
+
+
 _B = {"quick": {"slen": 2, "tmax": 2, "nq": 6}, "thorough": {"slen": 3, "tmax": 6, "nq": 9}}
 # (the last quick pair shares the key P=DTSTART while comp-range needs further keys: their request counters
 # cross the threshold at different queries)
@@ -174,6 +211,13 @@ HARNESSES = [
                      "xandikos.icalendar.TextMatcher.match_indexes", "xandikos.icalendar.ComponentTimeRangeMatcher.match_indexes",
                      "xandikos.icalendar.PropertyTimeRangeMatcher.match_indexes", "xandikos.icalendar.ICalendarFile._get_index",
                      "xandikos.store.File.get_indexes", "xandikos.icalendar.create_subindexes"]),
+    Harness("real_index", h_real_index, body_real_index, classes=["hit", "miss"], budget={"quick": 45, "thorough": 90},
+            describe="check_from_indexes(get_indexes(keys)) == check for 9 real iCalendar bodies x 10 filters through the real "
+                     "parser and the real filter compiler (DATE, floating, UTC, TZID values; nothing stubbed); exhaustive "
+                     "over the corpus",
+            encodes=["xandikos.icalendar.CalendarFilter.check_from_indexes", "xandikos.icalendar.ICalendarFile._get_index",
+                     "xandikos.icalendar.ComponentTimeRangeMatcher.match_indexes", "xandikos.icalendar.PropertyTimeRangeMatcher.match_indexes",
+                     "xandikos.icalendar.TextMatcher.match_indexes", "xandikos.store.File.get_indexes"]),
     Harness("history", h_history, body_history, classes=[("indexed", _PAIRS_Q[0]), ("naive-only", _PAIRS_Q[1])],
             parts={"quick": _PAIRS_Q, "thorough": _PAIRS_T}, bounds=_B, budget={"quick": 90, "thorough": 600},
             describe="symbolic sequence of queries (two filters, symbolic threshold) and writes on a store: every result "
